@@ -89,6 +89,21 @@ def expand(facts, body, t, depth=0, _stack=()):
         return t
     if t[0] in ('const', 'arg', 'upvar', 'env', 'item', 'fn', 'uninit'):
         return t
+    if t[0] == 'field' and isinstance(t[2], int) and isinstance(t[1], tuple) and t[1] and t[1][0] in ('phi', 'var') and depth < 6:
+        # component k of a tuple temporary that is assigned field by field on several branches (`let (a, b) = if c { (x, y) } else { (u, v) }`
+        # lowers to `_t.0 = x; _t.1 = y` per branch): the choice among the assignments to that component
+        loc = t[1][1] if t[1][0] == 'phi' else (t[1][2] if len(t[1]) > 2 else None)
+        if isinstance(loc, int) and loc not in _stack:
+            whole, partial = defs_of(body, loc)
+            mine = [d for d in partial if hasattr(d, 'lhs') and d.lhs is not None and len(d.lhs.fields()) == 1 and d.lhs.fields()[0][0] == 'f' and d.lhs.fields()[0][1] == t[2]]
+            if not whole and len(mine) >= 2 and hasattr(mine[0], 'rv'):
+                z = symbolizer(body)
+                alts = []
+                for d in mine:
+                    v = simplify(z.rvalue(d.rv, 0, (loc,)))
+                    vf, at = _conds(body, d.bb)
+                    alts.append((expand(facts, body, nosite(v), depth + 1, _stack + (loc,)), vf, at))
+                return ('choice', tuple(alts))
     if t[0] == 'call' and len(t[2]) == 2 and depth < 6:
         # a local closure called directly (`let f = |n| ..; f(x)`): Fn::call(&closure, (args..)) -> the closure's value
         f, a = peel(t[2][0]), peel(t[2][1])
